@@ -1,7 +1,7 @@
 (* C11 -- file contents written through a Path are read back identically.
    Property theorems only; proofs are in ProofC11.v.  The transfer protocol (run() proxy, tee, ^D, terminate0) is
    decided end-to-end; these theorems are the codec and payload facts it relies on. *)
-From TV Require Import Base Utf8 Regex Channel ChannelLemmas Hush Session ProofSession ProofC19 Sh Base64 ProofC11 Proxy PathIO ProofC11b ProofC05 ProofAlien ProofC11c.
+From TV Require Import Base Utf8 Regex Channel ChannelLemmas Hush Session ProofSession ProofC19 Sh Base64 ProofC11 Proxy PathIO ProofC11b ProofC05 ProofAlien ProofC11c ProofC11d.
 
 (* (1) decoding the encoding gives back the data: every byte string, all 256 values, every length *)
 Theorem C11_base64_roundtrip :
@@ -79,3 +79,32 @@ Print Assumptions C11_sent_lines_decode_to_the_data.
 Theorem C11_tee_death_string_cannot_fire_on_echoes : alien okc TEE_STR.
 Proof. exact tee_alien. Qed.
 Print Assumptions C11_tee_death_string_cannot_fire_on_echoes.
+
+(* (n) write_bytes as a whole session (model write_bytes_model in PathIO.v, compared with the real Path.write_bytes on
+       every run): for EVERY byte string and EVERY fragmentation and timing of the console's echoes -- the console
+       echoes the command line and every base64 line, and prompts again after ^D -- the session succeeds, the lines
+       that were sent decode to exactly the data, and the machine's channel is back in sync *)
+Theorem C11_write_bytes_session_exact :
+  forall cmd data parent (st_cmd : stage) (st_lines : list stage) (st_eof st_status : stage),
+  insync parent -> prompt parent = Some (SLit TBOT_PROMPT) ->
+  Forall is_byte data ->
+  any_in (blacklist parent) (cmd ++ [CR]) = false ->
+  Forall (fun l => any_in (blacklist parent) (l ++ [CR]) = false) (b64_lines data) ->
+  any_in (blacklist parent) (ECHO_Q ++ [CR]) = false ->
+  wf_pend st_cmd -> cat st_cmd = tty_echo false (cmd ++ [CR]) ->
+  Forall2 (fun l stg => wf_pend stg /\ cat stg = l ++ [CR; LF]) (b64_lines data) st_lines ->
+  wf_pend st_eof -> cat st_eof = TBOT_PROMPT ->
+  wf_pend st_status -> cat st_status = tty_echo false (ECHO_Q ++ [CR]) ++ ([48%N] ++ [CR; LF]) ++ TBOT_PROMPT ->
+  exists c',
+    write_bytes_model cmd data (st_cmd, st_lines, st_eof, st_status) parent = (WOk (length data), c') /\
+    insync c' /\ prompt c' = prompt parent /\ blacklist c' = blacklist parent /\
+    b64dec (ProofC11c.sent (b64_lines data)) = data.
+Proof. exact write_bytes_exact_tbot_prompt. Qed.
+Print Assumptions C11_write_bytes_session_exact.
+
+(* ... and the base64 lines pass the black-lists of both shell classes, whatever the data *)
+Theorem C11_base64_lines_pass_the_blacklists :
+  forall d, Forall is_byte d ->
+  Forall (fun l => any_in BASH_BLACKLIST (l ++ [CR]) = false /\ any_in ASH_BLACKLIST (l ++ [CR]) = false) (b64_lines d).
+Proof. exact b64_lines_pass_blacklists. Qed.
+Print Assumptions C11_base64_lines_pass_the_blacklists.
